@@ -321,8 +321,8 @@ func (c *Chain) Project(ctx sdk.Context) map[string]any {
 			lookup[x] = map[string]any{"found": false, "asset": "", "source": "", "ts": int64(0), "price": "0"}
 		}
 	}
-	st["oracle"] = map[string]any{"prices": prices, "feeders": feeders, "assetInfo": infos, "expiry": int64(op.PriceExpiryTime),
-		"lifetime": int64(op.LifeTimeInBlocks), "lookup": lookup, "lookupDenom": lookupDenom}
+	st["oracle"] = map[string]any{"prices": prices, "feeders": feeders, "assetInfo": infos, "expiry": u(op.PriceExpiryTime),
+		"lifetime": u(op.LifeTimeInBlocks), "lookup": lookup, "lookupDenom": lookupDenom} // (numbers that governance may set beyond 32 bits travel as strings)
 
 	// ---- tradeshield
 	spot := map[string]any{}
